@@ -3,6 +3,7 @@ package c20
 import (
 	"bytes"
 	"context"
+	"encoding/hex"
 	"encoding/json"
 	"fmt"
 	"os"
@@ -10,6 +11,7 @@ import (
 	"path/filepath"
 	"regexp"
 	"sort"
+	"strconv"
 	"strings"
 	"sync"
 	"testing"
@@ -133,7 +135,12 @@ func runFresh(t *testing.T, mc *verifsim.MapConfig, progs ...string) (last resul
 					if strings.Contains(src, "@INC@") {
 						src = strings.ReplaceAll(src, "@INC@", incDir())
 					}
-					_, _, ctl = env.Run(src, "/verif/c20/prog.php")
+					src, mainPath := applyDirectives(src)
+					if mainPath != "" {
+						_, ctl = env.VM.LoadAndRun(mainPath)
+					} else {
+						_, _, ctl = env.Run(src, "/verif/c20/prog.php")
+					}
 				}
 				if data.FlushAllBuffersFn != nil {
 					data.FlushAllBuffersFn()
@@ -295,6 +302,62 @@ var incFiles = map[string]string{
 
 var incOnce sync.Once
 
+// The simulated disk of the replaced-file pairs. A program may start with directive lines
+//
+//	#@put <name> <mtime-seconds> <hex contents>   the file <swap dir>/<name> has these contents and this mtime when the program starts
+//	#@main <mtime-seconds>                       the program itself is the file <swap dir>/main.php and is run from that path
+//
+// ("@SWAP@" in the program stands for the swap directory, one per OS process, fixed-width name). Two programs of one
+// process so see ONE path with two contents: a deployment that replaces a file between two runs. The modification
+// time is the disk's to choose: equal times (a coarse timestamp, a copy that preserves times) are legal, and so are
+// equal lengths.
+func swapDir() string {
+	return filepath.Join(root(), "genprogs", fmt.Sprintf("swap-%08d", os.Getpid()))
+}
+
+func applyDirectives(src string) (string, string) {
+	mainAt := int64(-1)
+	for strings.HasPrefix(src, "#@") {
+		line, rest, _ := strings.Cut(src, "\n")
+		src = rest
+		f := strings.Fields(line)
+		switch {
+		case f[0] == "#@put" && len(f) == 4:
+			b, err := hex.DecodeString(f[3])
+			if err != nil {
+				panic("bad #@put directive: " + line)
+			}
+			sec, _ := strconv.ParseInt(f[2], 10, 64)
+			putFile(filepath.Join(swapDir(), f[1]), strings.ReplaceAll(string(b), "@SWAP@", swapDir()), sec)
+		case f[0] == "#@main" && len(f) == 2:
+			mainAt, _ = strconv.ParseInt(f[1], 10, 64)
+		default:
+			panic("bad directive: " + line)
+		}
+	}
+	src = strings.ReplaceAll(src, "@SWAP@", swapDir())
+	if mainAt >= 0 {
+		p := filepath.Join(swapDir(), "main.php")
+		putFile(p, src, mainAt)
+		return src, p
+	}
+	return src, ""
+}
+
+func putFile(p, text string, sec int64) {
+	os.MkdirAll(filepath.Dir(p), 0o755)
+	tmp := p + ".tmp"
+	if err := os.WriteFile(tmp, []byte(text), 0o644); err != nil {
+		panic(err)
+	}
+	if err := os.Chtimes(tmp, time.Unix(sec, 0), time.Unix(sec, 0)); err != nil {
+		panic(err)
+	}
+	if err := os.Rename(tmp, p); err != nil {
+		panic(err)
+	}
+}
+
 func incDir() string {
 	dir := filepath.Join(root(), "genprogs", "inc")
 	incOnce.Do(func() {
@@ -373,6 +436,9 @@ func TestChild(t *testing.T) {
 	}
 	hx.InitProcess()
 	r, _ := runFresh(t, &verifsim.MapConfig{Mode: verifsim.MapSorted}, progs...)
+	// (the swap directory is named after this process: not part of what the program printed)
+	r.Out, r.Ctl, r.Throws = strings.ReplaceAll(r.Out, swapDir(), "@SWAP@"), strings.ReplaceAll(r.Ctl, swapDir(), "@SWAP@"), strings.ReplaceAll(r.Throws, swapDir(), "@SWAP@")
+	os.RemoveAll(swapDir())
 	b, _ := json.Marshal(r)
 	fmt.Printf("CHILD-RESULT:%s\n", b)
 }
